@@ -1,10 +1,11 @@
 import SaphyrVerif.Props.C16
 /-!
-# C16 — counter-example theorems (F)
+# C16 — regression theorems of the repaired findings, and what remains recorded
 
-The model is faithful to the code on these inputs (the `locs` differential agrees on them and the oracle
-stream reproduces each on the implementation: classes `C16-eof-virtual-line`,
-`C16-alias-error-defined-is-container` of `known_findings.json`); the property is false on them.
+Both findings the models cover are repaired in the code (and in the models): the former counter-example
+theorems are now theorems of the good behaviour on the same witnesses, next to the general theorems of
+`Props/C16.lean` (`end_of_stream_location_consistent`, `error_location_nested`).  The oracle classes
+`C16-eof-virtual-line` and `C16-alias-error-defined-is-container` keep their ids: a regression is a violation.
 The other recorded classes (`C16-quoted-span-includes-trailing`, `C16-empty-scalar-span`,
 `C16-block-scalar-span-includes-next-indent`, `C16-directive-multibyte-char-offset`) are defects of the
 marks the external scanner hands over; the models take marks as input, so there is no theorem for them.
@@ -12,46 +13,39 @@ marks the external scanner hands over; the models take marks as input, so there 
 namespace SaphyrVerif.Props.C16
 open SaphyrVerif SaphyrVerif.Scalars SaphyrVerif.Pump SaphyrVerif.De SaphyrVerif.Locs
 
-/-- (F) **end-of-stream mark names a line that does not exist**: for the input `%YAML 1.2` (no final line
-break) the scanner's end-of-stream mark is (index 9, line 2, column 0) although character offset 9 is
-line 1, column 9; the parser reports "did not find expected <document start>" there and
-`from_scan_error` turns it into line 2, column 1, offset 9. -/
-theorem eof_virtual_line_counterexample :
+/-- (R, formerly `eof_virtual_line_counterexample`) the witness `%YAML 1.2` (no final line break): the
+scanner's end-of-stream mark still is (index 9, line 2, column 0) — its rule, not ours — but the location
+built from it for the in-memory input is line 1, column 10, offset 9: the position just after the last
+character, which is what offset 9 denotes. -/
+theorem eof_location_regression :
     streamEndMark "%YAML 1.2".toList = ⟨9, 2, 0, 9⟩ ∧
     posOf "%YAML 1.2".toList 9 = ⟨9, 1, 9, 9⟩ ∧
-    fromScanError (streamEndMark "%YAML 1.2".toList).toMark = .ok ⟨2, 1, ⟨9, 1, (0, 0)⟩⟩ ∧
-    ¬ MarkAt "%YAML 1.2".toList (streamEndMark "%YAML 1.2".toList).toMark := by
-  refine ⟨by decide, by decide, by decide, ?_⟩
-  unfold MarkAt; decide
-
-theorem stream_end_mark_consistent_counterexample : ¬ stream_end_mark_consistent_Full := by
-  intro h
-  exact eof_virtual_line_counterexample.2.2.2 (h _)
+    fromScanErrorIn (some "%YAML 1.2".toList) (streamEndMark "%YAML 1.2".toList).toMark = .ok ⟨1, 10, ⟨9, 1, (0, 0)⟩⟩ ∧
+    locationFromSpanIn (some "# c".toList) (streamEndMark "# c".toList).toMark (streamEndMark "# c".toList).toMark =
+      .ok ⟨1, 4, ⟨3, 0, (3, 0)⟩⟩ := by
+  refine ⟨by decide, by decide, by decide, by decide⟩
 
 /-- a type error at a leaf carries the locations a span-carrying value at that leaf carries, ALSO when the
-leaf sits inside a container that is reached through an alias (full statement, on the witness family):
-the error of `j: *a` with `a = [1, oops]` should have the definition site of `oops` (14), as the
-span-carrying value at that position has (`aliasDoc "2"`: `.spanned 17 14`). -/
+leaf sits inside a container that is reached through an alias (on the witness family): the error of
+`j: *a` with `a = [1, oops]` has the definition site of `oops` (14), as the span-carrying value at that
+position has (`aliasDoc "2"`: `.spanned 17 14`). -/
 def nested_alias_error_eq_spanned_Full : Prop :=
   outcome (deserS 40 {} aliasTy (.live aliasPump (aliasDoc "oops"))) = 1 :: 17 :: 14 :: "AliasError".toList.map Char.toNat
 
-/-- (F) **a type error inside an aliased container reports the container as definition site**: the element
-error is first wrapped with (alias token 17, leaf 14) by the sequence access and then RE-wrapped by the
-enclosing map access with (alias token 17, start of the anchored sequence 12) — the outermost
-`attach_alias_locations_if_missing` wins, the leaf's location survives only inside the message text. -/
-theorem alias_error_defined_is_container_counterexample :
-    outcome (deserS 40 {} aliasTy (.live aliasPump (aliasDoc "oops"))) = 1 :: 17 :: 12 :: "AliasError".toList.map Char.toNat ∧
+/-- (R, formerly `alias_error_defined_is_container_counterexample`) the element error is wrapped with (alias
+token 17, leaf 14) by the sequence access; the enclosing map access — which knows (alias token 17, start of
+the anchored sequence 12) — leaves it alone. -/
+theorem alias_error_keeps_leaf_regression :
+    nested_alias_error_eq_spanned_Full ∧
     outcome (deserS 40 {} aliasTy (.live aliasPump (aliasDoc "2"))) =
-      0 :: digestS (.struct [("j", .seq [.spanned 17 13 (.leaf (.int 1)), .spanned 17 14 (.leaf (.int 2))])]) ∧
-    ¬ nested_alias_error_eq_spanned_Full := by
+      0 :: digestS (.struct [("j", .seq [.spanned 17 13 (.leaf (.int 1)), .spanned 17 14 (.leaf (.int 2))])]) := by
   unfold nested_alias_error_eq_spanned_Full
   decide +kernel
 
-/-- the two wrappings, on the model's `attachAlias`: the outer call overrides the inner one -/
-theorem attachAlias_outer_wins (e : DErr) (r d r' d' : Loc) (h : r' ≠ 0 ∧ d' ≠ 0 ∧ r' ≠ d') :
-    attachAlias (attachAlias e r d) r' d' = ⟨"AliasError", r', d'⟩ := by
-  obtain ⟨h1, h2, h3⟩ := h
-  simp [attachAlias, h1, h2, h3]
+/-- (R, formerly `attachAlias_outer_wins`) the two wrappings, on the model's `attachAlias`: the inner call wins -/
+theorem attachAlias_inner_wins (e : DErr) (r d r' d' : Loc) (h : r ≠ 0 ∧ d ≠ 0 ∧ r ≠ d) (hk : e.kind ≠ "AliasError") :
+    attachAlias (attachAlias e r d) r' d' = ⟨"AliasError", r, d⟩ :=
+  (error_location_nested e r d r' d' hk h.2.1 h.1 h.2.2).1
 
 /-- (F) **character coordinates wrap beyond 2^32** (the `as u32` casts of line, column, character offset,
 length; only the byte information is range-checked): marks at character 2^32 of one long line give
@@ -61,10 +55,9 @@ theorem char_offset_wraps_counterexample :
     locationFromSpan ⟨4294967296, 1, 4294967296, some 4294967296⟩ ⟨4294967297, 1, 4294967297, some 4294967297⟩ =
       .ok ⟨1, 1, ⟨0, 1, (0, 0)⟩⟩ := by decide
 
-#print axioms eof_virtual_line_counterexample
-#print axioms stream_end_mark_consistent_counterexample
-#print axioms alias_error_defined_is_container_counterexample
-#print axioms attachAlias_outer_wins
+#print axioms eof_location_regression
+#print axioms alias_error_keeps_leaf_regression
+#print axioms attachAlias_inner_wins
 #print axioms char_offset_wraps_counterexample
 
 end SaphyrVerif.Props.C16
